@@ -93,6 +93,20 @@ func classify(err error, srcLen int) (res string) {
 	if msg != "" {
 		return fmt.Sprintf("ERRORPANIC(%d: %s)", code, strings.ReplaceAll(msg[1:], " ", "_"))
 	}
+	// "every non-nil error is a library error exposing code, message and a position": an empty message says nothing
+	if m, ok := err.(interface{ Message() string }); ok && m.Message() == "" {
+		return fmt.Sprintf("EMPTYMSG(%d)", code)
+	}
+	// a recovered Go runtime panic (index out of range, makeslice: cap out of range, nil dereference...) handed back as the message of a
+	// library error is a panic all the same: the call did not decide anything about its input
+	if t := err.Error(); strings.Contains(t, "runtime error:") {
+		i := strings.Index(t, "runtime error:")
+		e := i + 60
+		if e > len(t) {
+			e = len(t)
+		}
+		return fmt.Sprintf("RUNTIME(%d: %s)", code, strings.ReplaceAll(strings.ReplaceAll(t[i:e], " ", "_"), "\n", "_"))
+	}
 	if code < 0 {
 		return fmt.Sprintf("FOREIGN(%T)", err)
 	}
